@@ -677,9 +677,19 @@ PROPS["C10"] = mpmc_prop("C10", 10, [(0, "sr", 0, 4), (1, "sr", 0, 4), (0, "sr",
 PROPS["C11"] = c11_prop()
 PROPS["C12"] = recv_chan_prop("C12", 12, [(ONESHOT, "oneshot", "oneshot", "witness_second_receive_n6", 3),
                                           (ONESHOT_BC, "oneshot_bc", "oneshot-broadcast", "witness_second_receive_n6", 3)],
-                              "GenericOneshotChannel / GenericOneshotBroadcastChannel", ONESHOT_FUNCS)
+                              "GenericOneshotChannel / GenericOneshotBroadcastChannel", ONESHOT_FUNCS,
+                              extra_quick=[
+                                  H(LIFE, "life_oneshot_n3", "hold", replay=("life_oneshot", 0), mask=P(11), est_s=120, est_gb=4,
+                                    bounds="shared oneshot (Arc handles): a receive future pending when the last handle of a side is dropped is woken and "
+                                           "resolves to None; 3 drop operations"),
+                                  H(LIFE, "life_oneshot_bc_n3", "hold", replay=("life_oneshot_bc", 0), mask=P(11), est_s=140, est_gb=5,
+                                    bounds="shared oneshot-broadcast: same, 1 sender + up to 2 receiver handles, 3 clone/drop operations")])
 PROPS["C13"] = recv_chan_prop("C13", 13, [(STATE, "state", "state-broadcast", "witness_follower_n6", 3)],
-                              "GenericStateBroadcastChannel", STATE_FUNCS)
+                              "GenericStateBroadcastChannel", STATE_FUNCS,
+                              extra_quick=[
+                                  H(LIFE, "life_state_n3", "hold", replay=("life_state", 0), mask=P(11), est_s=200, est_gb=6,
+                                    bounds="shared state broadcast (Arc handles): a waiting receiver is woken and resolves to None exactly when the last handle "
+                                           "of a side is dropped; 2+2 handle slots, 3 clone/drop operations")])
 PROPS["C14"] = c14_prop()
 PROPS["C15"] = c15_prop()
 PROPS["C19"] = c19_prop()
